@@ -128,10 +128,16 @@ func C08Reflect() {
 }
 
 // C07Reflect: arbitrary bytes into the reflection decoder for a few target types.
-func C07Reflect() {
+func C07Reflect() { zzC07Reflect(0, 4) }
+
+// C07ReflectBuffers: the same with byte buffers, numeric vectors, a string, a map of buffers and a
+// struct of vectors as destination.
+func C07ReflectBuffers() { zzC07Reflect(4, 5) }
+
+func zzC07Reflect(first, count int) {
 	n := sym.Choose("n", 13)
 	in := sym.Bytes("in", n)
-	target := sym.Choose("target", 4)
+	target := first + sym.Choose("target", count)
 	// the destination is fresh, or a holder that still contains an earlier (valid, non-empty) result
 	reused := sym.Bool("destination-already-holds-a-value")
 	sym.Bounded(16<<20+64*n, n+8, func() {
@@ -155,7 +161,42 @@ func C07Reflect() {
 				v.L = []bool{true}
 			}
 			err = NewDecoder(nil, bytes.NewReader(in)).Decode(&v)
-		default:
+		case 4:
+			// a byte buffer at the top level (the Go type of "[C]": images, audio samples)
+			var v []byte
+			if reused {
+				v = []byte{1, 2}
+			}
+			err = NewDecoder(nil, bytes.NewReader(in)).Decode(&v)
+		case 5:
+			var v []int32
+			if reused {
+				v = []int32{7}
+			}
+			err = NewDecoder(nil, bytes.NewReader(in)).Decode(&v)
+		case 6:
+			var v string
+			if reused {
+				v = "x"
+			}
+			err = NewDecoder(nil, bytes.NewReader(in)).Decode(&v)
+		case 7:
+			var v map[string][]byte
+			if reused {
+				v = map[string][]byte{"k": {1}}
+			}
+			err = NewDecoder(nil, bytes.NewReader(in)).Decode(&v)
+		case 8:
+			var v struct {
+				B []uint8
+				S []int8
+				T uint16
+			}
+			if reused {
+				v.B = []uint8{1}
+			}
+			err = NewDecoder(nil, bytes.NewReader(in)).Decode(&v)
+		case 3:
 			var v [][]uint16
 			if reused {
 				v = [][]uint16{{1}}
